@@ -1,6 +1,7 @@
 import QipVerif.Lemmas.SchedGate
 import QipVerif.Lemmas.SchedC
 import QipVerif.Lemmas.SchedSafe
+import QipVerif.Lemmas.SchedFixed
 import QipVerif.Lemmas.SchedOracle
 import Mathlib.Algebra.Group.Opposite
 import Mathlib.Algebra.BigOperators.Group.List.Lemmas
@@ -285,9 +286,9 @@ a family for which commutation is **proved** (`safePair`, `Lemmas/SchedFam.lean`
 same one-qubit name among `X Y Z S T SNOT SQRTNOT IDLE RX RY RZ PHASEGATE` on the same target (all angles);
 same controlled name among `CNOT CSIGN CZ CY CS CT CRX CRY CRZ CPHASE` with the same control or the same
 target (all angles); `CNOT` with `X`/`RX(θ)` on its target; `CNOT` with `Z`/`RZ(θ)` on its control;
-same name among `SWAP ISWAP SQRTSWAP SQRTISWAP BERKELEY` on the same ordered targets.
-It is `false` whenever a declared-commuting pair is a `TOFFOLI`/`FREDKIN` pair or a symmetric two-qubit
-pair listed in opposite orders, and whenever the circuit contains a name without complex semantics
+same name among `SWAP ISWAP SQRTSWAP SQRTISWAP BERKELEY` on the same two targets (either order);
+two `TOFFOLI` gates with the same target or the same two controls (either order).
+It is `false` whenever a declared-commuting pair is a `FREDKIN` pair or has a non-canonical shape, and whenever the circuit contains a name without complex semantics
 (`SWAPalpha R QASMU MS RZX`, user gates) — this includes every family on which the rule is unsound. -/
 
 /-- **schedule_den_C_safe.**  For every circuit with `safeComm w N gs = true`, both methods, both
@@ -316,5 +317,45 @@ example : commRules (insOf (fun _ => true) ⟨.CNOT, [1], [0], {}⟩) (insOf (fu
 -- (declared commuting, not a proved family), and any circuit containing a QASMU gate
 example : safeComm (fun _ => true) 4 [⟨.FREDKIN, [1, 2], [0], {}⟩, ⟨.FREDKIN, [2, 3], [0], {}⟩] = false ∧
     safeComm (fun _ => true) 1 [⟨.QASMU, [0], [], {}⟩, ⟨.QASMU, [0], [], {}⟩] = false := by decide +kernel
+
+/-! ## (e‴) the repaired rule (`fixes/C05-1.patch`): no side condition
+
+With the patch the same-name rule applies only to the names of `_SELF_COMMUTING_GATES` (`patchNames`,
+compared with the set of the tree by the harness).  Then **every** pair the rule can declare commuting
+among well-formed, canonically shaped library gates is a proved family (`safePair_of_declared`), so
+`safeComm` holds automatically. -/
+
+/-- **schedule_den_C_fixed.**  For any set `w` of self-commuting names without `FREDKIN`, every circuit of
+well-formed (`wfG`), canonically shaped (`shapeOK`) gates with complex semantics, both methods, both
+permutation settings, every oracle, every valuation: the scheduled circuit denotes the same operator.
+No matrix hypothesis and no `safeComm` hypothesis. -/
+theorem schedule_den_C_fixed (w : String → Bool) (hF : w "FREDKIN" = false) (N : ℕ) (ρ : ℕ → ℝ) (gs : List Gate)
+    (hO : ∀ r l, (O2 r l).Perm l) (h : ∀ g ∈ gs, wfG N g = true ∧ shapeOK g = true) :
+    denG N ρ (((cyclesGen alap allowPerm (gs.map (insOf w)) O2).flatten).map (fun i => gs.getD i dfltGate)) =
+      denG N ρ gs :=
+  schedule_den_fixed ρ w hF alap allowPerm gs O2 hO h
+
+/-- the instance for the literal set of `fixes/C05-1.patch` -/
+theorem schedule_den_C_patch (N : ℕ) (ρ : ℕ → ℝ) (gs : List Gate)
+    (hO : ∀ r l, (O2 r l).Perm l) (h : ∀ g ∈ gs, wfG N g = true ∧ shapeOK g = true) :
+    denG N ρ (((cyclesGen alap allowPerm (gs.map (insOf wPatch)) O2).flatten).map (fun i => gs.getD i dfltGate)) =
+      denG N ρ gs :=
+  schedule_den_C_fixed alap allowPerm O2 wPatch wPatch_fredkin N ρ gs hO h
+
+/-- every pair the rule declares commuting is a proved family (the reason `safeComm` is automatic) -/
+theorem declared_pairs_are_safe (w : String → Bool) (hF : w "FREDKIN" = false) (N : ℕ) (gs : List Gate)
+    (h : ∀ g ∈ gs, wfG N g = true ∧ shapeOK g = true) : safeComm w N gs = true :=
+  safeComm_of_shape w hF N gs h
+
+-- non-vacuity: TOFFOLI pairs (same controls in the opposite order; same target), a SWAP listed both ways,
+-- two FREDKIN gates sharing the control (no longer declared commuting), rotations with symbolic angles
+example : ∀ g ∈ ([⟨.TOFFOLI, [2], [0, 1], {}⟩, ⟨.TOFFOLI, [3], [1, 0], {}⟩, ⟨.TOFFOLI, [3], [0, 2], {}⟩,
+    ⟨.SWAP, [0, 1], [], {}⟩, ⟨.SWAP, [1, 0], [], {}⟩, ⟨.FREDKIN, [1, 2], [0], {}⟩, ⟨.FREDKIN, [2, 3], [0], {}⟩,
+    ⟨.CRX, [1], [0], Ang.symb 0⟩, ⟨.CRX, [2], [0], Ang.symb 1⟩] : List Gate), wfG 4 g = true ∧ shapeOK g = true := by
+  decide +kernel
+
+example : commRules (insOf wPatch ⟨.FREDKIN, [1, 2], [0], {}⟩) (insOf wPatch ⟨.FREDKIN, [2, 3], [0], {}⟩) = false ∧
+    commRules (insOf (fun _ => true) ⟨.FREDKIN, [1, 2], [0], {}⟩) (insOf (fun _ => true) ⟨.FREDKIN, [2, 3], [0], {}⟩) = true := by
+  decide +kernel
 
 end QipVerif.C05
